@@ -104,7 +104,9 @@ def gen_case(ctx, version, keys, defaults):
         except vol.Invalid:
             pass
     cur = {}
-    ids = {int(t.EzspConfigId[n]) for n in set(dnames) | set(good)}
+    # (the NCP reports a value for every setting the version's schema knows - also for those the schema fills in by itself
+    # without the library's own default list naming them)
+    ids = {int(t.EzspConfigId[n]) for n in set(dnames) | set(good) | {k_ for k_ in keys if k_ in t.EzspConfigId.__members__}}
     for i in ids:
         r = rng.random()
         if r < 0.15:
